@@ -314,7 +314,13 @@ fn finish_pipe(p: &Pipe, prod_out: Out, produced: RefArray, scratch: &Scratch) -
             case(),
         ));
     }
-    let suffix = if p.format == "npy" { ".npy" } else { ".sfs" };
+    // for every other spectrum the file name contradicts the content (format detection is by content)
+    let suffix = match (p.format == "npy", p.spectrum % 2 == 1) {
+        (true, false) => ".npy",
+        (false, false) => ".sfs",
+        (true, true) => ".txt",
+        (false, true) => ".npy",
+    };
     let o = run_sfs_transport(CONSUMERS[p.consumer], &prod_out.stdout, p.transport, suffix, scratch);
     if !o.ok() {
         return Some((
@@ -556,7 +562,7 @@ pub fn run(tier: Tier) -> i32 {
         name: "cli: producer x format x sink x consumer".into(),
         evaluations: pipes.len() as u64,
         nontrivial: pipes.iter().filter(|p| p.format == "npy" || p.sink == "file-reused" || p.producer == "fold" || p.spectrum >= 2).count() as u64,
-        note: "every combination; fold produces NaN cells; `-o` onto a fresh path, onto a longer pre-existing file and onto the input file itself; the consumer reads from stdin (regular file / real pipe) or from a path (regular file / FIFO / /dev/stdin over a pipe)".into(),
+        note: "every combination; fold produces NaN cells; `-o` onto a fresh path, onto a longer pre-existing file and onto the input file itself; the consumer reads from stdin (regular file / real pipe) or from a path (regular file / FIFO / /dev/stdin over a pipe; for every other spectrum under a file name whose extension contradicts the format)".into(),
         exhaustive: true,
         extra: vec![],
     });
